@@ -5,41 +5,92 @@ use crate::c17::*;
 use crate::genstmt::*;
 use crate::world::*;
 use anda_cognitive_nexus::nexus::DEFAULT_SPACE;
+use anda_cognitive_nexus::schema::{PackageState, SchemaLock, SchemaPackage};
 use h_common::*;
 use serde_json::{Value, json};
 use std::collections::BTreeMap;
 use std::io::Write;
 
 /// `{A}` is where `AS OF ...` goes (after the WHERE block, before ORDER BY).
-pub const BATTERY: [(&str, &str); 27] = [
-    ("element", r#"FIND(?c) WHERE { ?c CONCEPT {type: "Person"} } {A} ORDER BY ?c.id"#),
-    ("element", r#"FIND(?c.id, ?c.name, ?c._system.version, ?c.attributes.description) WHERE { ?c CONCEPT {} } {A} ORDER BY ?c.id"#),
-    ("element-state", r#"FIND(?c.id, ?c._system.version) WHERE { ?c CONCEPT {state: "archived"} } {A} ORDER BY ?c.id"#),
-    ("element-state", r#"FIND(?c.id, ?c._system.version) WHERE { ?c CONCEPT {state: "tombstoned"} } {A} ORDER BY ?c.id"#),
-    ("element-state", r#"FIND(?c.id, ?c.merged_into) WHERE { ?c CONCEPT {state: "merged"} } {A} ORDER BY ?c.id"#),
-    ("element", r#"FIND(?c.id, ?c.facets) WHERE { ?c CONCEPT {type: "Person"} } {A} ORDER BY ?c.id"#),
-    ("element", r#"FIND(?c.id, ?c.retention) WHERE { ?c CONCEPT {key: "k1"} } {A}"#),
-    ("tuple", r#"FIND(?p) WHERE { ?p PROPOSITION (?s, "prefers", ?o) } {A} ORDER BY ?p.id"#),
-    ("tuple", r#"FIND(?s.name, ?o.name) WHERE { (?s, "prefers", ?o) } {A} ORDER BY ?s.name, ?o.name"#),
-    ("tuple", r#"FIND(?p.id, ?p.attributes) WHERE { ?p PROPOSITION (?s, ?pred, ?o) } {A} ORDER BY ?p.id"#),
-    ("path", r#"FIND(?a.id, ?b.id) WHERE { (?a, "same_as"{1,2}, ?b) } {A} ORDER BY ?a.id, ?b.id"#),
-    ("path", r#"FIND(?a.id, ?b.id) WHERE { (?a, "prefers" | "same_as", ?b) } {A} ORDER BY ?a.id, ?b.id"#),
-    ("element", r#"FIND(?a) WHERE { ?a ASSERTION {} } {A} ORDER BY ?a.id"#),
-    ("element", r#"FIND(?a.id, ?a.lifecycle.status, ?a.confidence, ?a.lifecycle.superseded_by) WHERE { ?a ASSERTION {stance: "reject"} } {A} ORDER BY ?a.id"#),
-    ("filter", r#"FIND(?a.id) WHERE { ?a ASSERTION {} FILTER(?a.confidence > 0.5) } {A} ORDER BY ?a.id"#),
-    ("filter", r#"FIND(?c.name) WHERE { ?c CONCEPT {type: "Person"} FILTER(CONTAINS(?c.name, "a")) } {A} ORDER BY ?c.name"#),
-    ("not", r#"FIND(?c.id) WHERE { ?c CONCEPT {type: "Person"} NOT { (?c, "prefers", ?o) } } {A} ORDER BY ?c.id"#),
-    ("aggregate", r#"FIND(COUNT(?c)) WHERE { ?c CONCEPT {} } {A}"#),
-    ("aggregate", r#"FIND(COUNT(?a), AVG(?a.confidence)) WHERE { ?a ASSERTION {} } {A}"#),
-    ("aggregate", r#"FIND(COUNT(DISTINCT ?a.stance)) WHERE { ?a ASSERTION {} } {A}"#),
-    ("belief", r#"FIND(?p.id, ?b.status, ?b.support.score, ?b.opposition.score) WHERE { ?p PROPOSITION (?s, "prefers", ?o) ?b BELIEF (?p) } {A} ORDER BY ?p.id"#),
-    ("slot", r#"FIND(?c.id, ?slot) WHERE { ?c CONCEPT {type: "Person"} ?slot BELIEF SLOT (?c, "prefers") } {A} ORDER BY ?c.id"#),
-    ("element", r#"FIND(?e.id, ?e.lifecycle, ?e.payload) WHERE { ?e EVIDENCE {} } {A} ORDER BY ?e.id"#),
-    ("element", r#"FIND(?v.id, ?v.status, ?v.ended_at) WHERE { ?v ACTIVITY {} } {A} ORDER BY ?v.id"#),
-    ("structural", r#"FIND(?a.id, ?e.id) WHERE { ?edge STRUCTURAL (?a, "evidence", ?e) } {A} ORDER BY ?a.id, ?e.id"#),
-    ("structural", r#"FIND(?v.id, ?e.id) WHERE { ?edge STRUCTURAL (?v, "outputs", ?e) } {A} ORDER BY ?v.id, ?e.id"#),
-    ("optional", r#"FIND(?c.id, ?o.id) WHERE { ?c CONCEPT {type: "Person"} OPTIONAL { (?c, "prefers", ?o) } } {A} ORDER BY ?c.id, ?o.id"#),
-];
+/// Every pattern family the property lists, and for every element kind the lifecycle states a later
+/// statement can move it to (archived / tombstoned / merged / purged, retracted / superseded / corrected).
+pub fn battery() -> Vec<(&'static str, String)> {
+    let mut b: Vec<(&'static str, String)> = vec![
+        ("element", r#"FIND(?c) WHERE { ?c CONCEPT {type: "Person"} } {A} ORDER BY ?c.id"#.into()),
+        ("element", r#"FIND(?c.id, ?c.name, ?c._system.version, ?c.attributes.description) WHERE { ?c CONCEPT {} } {A} ORDER BY ?c.id"#.into()),
+        ("element", r#"FIND(?c.id, ?c.facets) WHERE { ?c CONCEPT {type: "Person"} } {A} ORDER BY ?c.id"#.into()),
+        ("element", r#"FIND(?c.id, ?c.retention) WHERE { ?c CONCEPT {key: "k1"} } {A}"#.into()),
+        ("element-by-id", r#"FIND(?c.name, ?c._system.state, ?c._system.version) WHERE { ?c CONCEPT {id: "C-1"} } {A}"#.into()),
+        ("element-by-id", r#"FIND(?c.name, ?c._system.version) WHERE { ?c CONCEPT {id: "C-2", state: "archived"} } {A}"#.into()),
+        ("element-state-bind", r#"FIND(?c.id, ?s) WHERE { ?c CONCEPT {state: ?s} } {A} ORDER BY ?c.id"#.into()),
+        ("tuple", r#"FIND(?p) WHERE { ?p PROPOSITION (?s, "prefers", ?o) } {A} ORDER BY ?p.id"#.into()),
+        ("tuple", r#"FIND(?s.name, ?o.name) WHERE { (?s, "prefers", ?o) } {A} ORDER BY ?s.name, ?o.name"#.into()),
+        ("tuple", r#"FIND(?p.id, ?p.attributes) WHERE { ?p PROPOSITION (?s, ?pred, ?o) } {A} ORDER BY ?p.id"#.into()),
+        ("tuple", r#"FIND(?p.id, ?s.id, ?o.id) WHERE { ?p PROPOSITION (?s, "same_as", ?o) } {A} ORDER BY ?p.id"#.into()),
+        ("tuple-anchored", r#"FIND(?s.id, ?o.id) WHERE { ?s CONCEPT {type: "Person"} (?s, "prefers", ?o) } {A} ORDER BY ?s.id, ?o.id"#.into()),
+        ("tuple-anchored", r#"FIND(?p.id, ?s.id) WHERE { ?o CONCEPT {type: "Preference"} ?p PROPOSITION (?s, "prefers", ?o) } {A} ORDER BY ?p.id"#.into()),
+        ("tuple-count", r#"FIND(COUNT(?p)) WHERE { ?p PROPOSITION (?s, ?pred, ?o) } {A}"#.into()),
+        ("tuple-count", r#"FIND(COUNT(?o)) WHERE { (?s, "prefers", ?o) } {A}"#.into()),
+        ("tuple-by-id", r#"FIND(?p.id, ?p._system.state, ?p._system.version) WHERE { ?p PROPOSITION (id: "P-1") } {A}"#.into()),
+        ("tuple-by-id", r#"FIND(?p.id, ?p._system.state, ?p._system.version) WHERE { ?p PROPOSITION (id: "P-2") } {A}"#.into()),
+        ("tuple-join", r#"FIND(?a.id, ?p.id) WHERE { ?p PROPOSITION (?s, ?pred, ?o) ?a ASSERTION {proposition: ?p} } {A} ORDER BY ?a.id"#.into()),
+        ("path", r#"FIND(?a.id, ?b.id) WHERE { (?a, "same_as"{1,2}, ?b) } {A} ORDER BY ?a.id, ?b.id"#.into()),
+        ("path", r#"FIND(?a.id, ?b.id) WHERE { (?a, "prefers"{1,3}, ?b) } {A} ORDER BY ?a.id, ?b.id"#.into()),
+        ("path", r#"FIND(?a.id, ?b.id) WHERE { (?a, "prefers" | "same_as", ?b) } {A} ORDER BY ?a.id, ?b.id"#.into()),
+        ("path-count", r#"FIND(COUNT(?b)) WHERE { (?a, "prefers"{1,2} | "same_as", ?b) } {A}"#.into()),
+        ("element", r#"FIND(?a) WHERE { ?a ASSERTION {} } {A} ORDER BY ?a.id"#.into()),
+        ("element", r#"FIND(?a.id, ?a.lifecycle.status, ?a.confidence, ?a.lifecycle.superseded_by) WHERE { ?a ASSERTION {stance: "reject"} } {A} ORDER BY ?a.id"#.into()),
+        ("filter", r#"FIND(?a.id) WHERE { ?a ASSERTION {} FILTER(?a.confidence > 0.5) } {A} ORDER BY ?a.id"#.into()),
+        ("filter", r#"FIND(?c.name) WHERE { ?c CONCEPT {type: "Person"} FILTER(CONTAINS(?c.name, "a")) } {A} ORDER BY ?c.name"#.into()),
+        ("not", r#"FIND(?c.id) WHERE { ?c CONCEPT {type: "Person"} NOT { (?c, "prefers", ?o) } } {A} ORDER BY ?c.id"#.into()),
+        ("optional", r#"FIND(?c.id, ?o.id) WHERE { ?c CONCEPT {type: "Person"} OPTIONAL { (?c, "prefers", ?o) } } {A} ORDER BY ?c.id, ?o.id"#.into()),
+        ("union", r#"FIND(?x.id) WHERE { ?x CONCEPT {type: "Preference"} UNION { ?x CONCEPT {key: "k2"} } } {A} ORDER BY ?x.id"#.into()),
+        ("aggregate", r#"FIND(COUNT(?c)) WHERE { ?c CONCEPT {} } {A}"#.into()),
+        ("aggregate", r#"FIND(COUNT(?a), AVG(?a.confidence)) WHERE { ?a ASSERTION {} } {A}"#.into()),
+        ("aggregate", r#"FIND(COUNT(DISTINCT ?a.stance)) WHERE { ?a ASSERTION {} } {A}"#.into()),
+        ("belief", r#"FIND(?p.id, ?b.status, ?b.support.score, ?b.opposition.score) WHERE { ?p PROPOSITION (?s, "prefers", ?o) ?b BELIEF (?p) } {A} ORDER BY ?p.id"#.into()),
+        ("slot", r#"FIND(?c.id, ?slot) WHERE { ?c CONCEPT {type: "Person"} ?slot BELIEF SLOT (?c, "prefers") } {A} ORDER BY ?c.id"#.into()),
+        ("element", r#"FIND(?e.id, ?e.lifecycle, ?e.payload) WHERE { ?e EVIDENCE {} } {A} ORDER BY ?e.id"#.into()),
+        ("element", r#"FIND(?v.id, ?v.status, ?v.ended_at) WHERE { ?v ACTIVITY {} } {A} ORDER BY ?v.id"#.into()),
+        ("structural", r#"FIND(?a.id, ?e.id) WHERE { ?edge STRUCTURAL (?a, "evidence", ?e) } {A} ORDER BY ?a.id, ?e.id"#.into()),
+        ("structural", r#"FIND(?v.id, ?e.id) WHERE { ?edge STRUCTURAL (?v, "outputs", ?e) } {A} ORDER BY ?v.id, ?e.id"#.into()),
+        ("structural-count", r#"FIND(COUNT(?e)) WHERE { ?edge STRUCTURAL (?a, "evidence", ?e) } {A}"#.into()),
+        // resolved under the schema environment of the coordinate: `leads_to` exists only after the second activation
+        ("schema-env", r#"FIND(?a.id, ?b.id) WHERE { (?a, "leads_to", ?b) } {A} ORDER BY ?a.id, ?b.id"#.into()),
+        ("lifecycle-status", r#"FIND(?a.id, ?a._system.version) WHERE { ?a ASSERTION {status: "retracted"} } {A} ORDER BY ?a.id"#.into()),
+        ("lifecycle-status", r#"FIND(?a.id, ?a.lifecycle.superseded_by) WHERE { ?a ASSERTION {status: "superseded"} } {A} ORDER BY ?a.id"#.into()),
+        ("lifecycle-status", r#"FIND(?e.id, ?e.lifecycle) WHERE { ?e EVIDENCE {status: "corrected"} } {A} ORDER BY ?e.id"#.into()),
+        ("lifecycle-status", r#"FIND(?v.id) WHERE { ?v ACTIVITY {status: "completed"} } {A} ORDER BY ?v.id"#.into()),
+    ];
+    for (kw, states) in [
+        ("CONCEPT", &["archived", "tombstoned", "merged", "purged"][..]),
+        ("ASSERTION", &["archived", "tombstoned", "purged"][..]),
+        ("EVIDENCE", &["archived", "tombstoned"][..]),
+        ("ACTIVITY", &["archived", "tombstoned"][..]),
+    ] {
+        for st in states {
+            b.push(("element-state", format!(r#"FIND(?x.id, ?x._system.version) WHERE {{ ?x {kw} {{state: "{st}"}} }} {{A}} ORDER BY ?x.id"#)));
+        }
+    }
+    b
+}
+
+/// A second package, so that a history can activate a second Schema Environment (tests/traversal.rs).
+const CHAIN_PROFILE: &str = r#"{
+  "format": "KIP-Schema-Package",
+  "format_version": "2.0",
+  "manifest": {"package_id": "kip://test/chain", "version": "1.0.0", "package_ref": "kip://test/chain@1.0.0", "name": "Chain test package"},
+  "definitions": {"predicates": {"leads_to": {"ref": "kip://test/chain@1.0.0/leads_to", "kind": "PredicateType",
+     "subject": {"kinds": ["Concept"]}, "object": {"kinds": ["Concept"]}}}}
+}"#;
+
+/// DESCRIBE SCHEMA ENVIRONMENT [AS OF ...]: the environment described, without the reply's own context block
+/// (which names the environment the META command itself ran under - the present one).
+async fn schema_env(w: &World, clause: &str) -> Value {
+    let a = w.ask(&format!("DESCRIBE SCHEMA ENVIRONMENT {clause}")).await;
+    json!({"status": a["status"], "error": a["error"],
+           "result": a["results"].get(0).map(|r| r["result"].clone()).unwrap_or(Value::Null)})
+}
 
 fn q(template: &str, as_of: &str) -> String {
     template.replace("{A}", as_of).replace("  ", " ")
@@ -71,8 +122,11 @@ pub async fn main(args: &[String]) {
     let histories = arg_value(args, "--histories").and_then(|s| s.parse().ok()).unwrap_or(4usize);
     let steps = arg_value(args, "--steps").and_then(|s| s.parse().ok()).unwrap_or(14usize);
     let all_forms = args.iter().any(|a| a == "--all-forms");
+    let no_purge = args.iter().any(|a| a == "--no-purge");
+    let (mut purges, mut activations, mut rebaselined) = (0usize, 0usize, 0usize);
     let mut out = std::io::BufWriter::new(std::fs::File::create(&out_path).expect("out"));
     let mut rng = Rng::from_env();
+    let bat = battery();
     let mut failures: Vec<Value> = vec![];
     let mut replays = 0usize;
     let mut by_family: BTreeMap<String, usize> = BTreeMap::new();
@@ -84,26 +138,98 @@ pub async fn main(args: &[String]) {
     for h in 0..histories {
         let w = World::new(&format!("c18_{h}")).await;
         let mut g = Gen::new(rng.fork(), 12, 5);
+        g.lifecycle_pct = 30;
+        g.purge_pct = if no_purge { 0 } else { 5 };
         let mut coords: Vec<Coord> = vec![];
         let mut stmts: Vec<Value> = vec![];
         let mut d = w.dump_store().await;
+        // one history in two activates a second schema environment half way (a journalled governance commit)
+        let activate_at = if h % 2 == 0 && steps >= 8 { steps / 2 } else { usize::MAX };
         for i in 0..steps {
-            let stmt = g.next(&Mirror::from_dump(&d));
-            let r = w.run_with(&stmt.text, stmt.dry, stmt.params.as_ref()).await;
-            stmts.push(json!({"text": stmt.text, "params": stmt.params, "dry": stmt.dry, "class": r.class, "error": r.error_code, "seq": r.seq}));
-            d = w.dump_store().await;
-            for c in &r.changes {
-                *later_kinds.entry(c.2.clone()).or_default() += 1;
+            let mut r;
+            if i == activate_at {
+                let pkg = SchemaPackage::parse(CHAIN_PROFILE).expect("chain package");
+                w.nexus.install_package(&pkg, "verif").await.expect("install chain");
+                let mut lock = SchemaLock::default();
+                for (id, v) in [(PROFILE_ID, "2.0.0"), ("kip://test/chain", "1.0.0")] {
+                    lock.packages.insert(id.to_string(), v.to_string());
+                    lock.states.insert(id.to_string(), PackageState::Active);
+                }
+                w.nexus.activate_schema(DEFAULT_SPACE, lock).await.expect("activate chain");
+                d = w.dump_store().await;
+                let j = d.journal.last().expect("the activation is journalled");
+                r = Resp { class: "committed".into(), error_code: String::new(), seq: Some(j.seq), tx_id: Some(j.tx_id.clone()),
+                           committed_at: Some(j.committed_at.clone()), changes: vec![], handles: Default::default(), raw: Value::Null };
+                stmts.push(json!({"text": "(host) install kip://test/chain@1.0.0 and activate_schema", "class": "committed", "seq": j.seq}));
+                activations += 1;
+                *later_kinds.entry("schema_activation".into()).or_default() += 1;
+            } else {
+                let m = Mirror::from_dump(&d);
+                let stmt = if activate_at != usize::MAX && i == activate_at + 1 && m.all.iter().filter(|e| e.1 == "concept").count() >= 2 {
+                    // a tuple that only the new environment can express
+                    let cs: Vec<&String> = m.all.iter().filter(|e| e.1 == "concept").map(|e| &e.0).collect();
+                    Stmt { text: r#"ENSURE PROPOSITION ?l (:a, "leads_to", :b)"#.into(), params: Some(json!({"a": cs[0], "b": cs[1]})), dry: false, tag: "leads_to".into() }
+                } else {
+                    g.next(&m)
+                };
+                // PURGE is the one statement that may remove the past: remember what every element resolved to
+                let is_purge = stmt.tag.starts_with("purge");
+                let mut before_purge: BTreeMap<(String, u64), Option<(u64, i64)>> = BTreeMap::new();
+                if is_purge {
+                    for e in &d.elems {
+                        let id: anda_cognitive_nexus::id::ElementId = e.id.parse().expect("id");
+                        for c in &coords {
+                            before_purge.insert((e.id.clone(), c.seq), w.nexus.store.element_at(DEFAULT_SPACE, id, c.seq).await.ok().flatten().map(|x| rowdig(&x)));
+                        }
+                    }
+                }
+                r = w.run_with(&stmt.text, stmt.dry, stmt.params.as_ref()).await;
+                stmts.push(json!({"text": stmt.text, "params": stmt.params, "dry": stmt.dry, "class": r.class, "error": r.error_code, "seq": r.seq}));
+                d = w.dump_store().await;
+                for c in &r.changes {
+                    *later_kinds.entry(c.2.clone()).or_default() += 1;
+                }
+                if is_purge && r.class == "committed" {
+                    purges += 1;
+                    let purged: Vec<String> = r.changes.iter().filter(|c| c.2 == "purge").map(|c| c.0.clone()).collect();
+                    for ((id, s), was) in &before_purge {
+                        let eid: anda_cognitive_nexus::id::ElementId = id.parse().expect("id");
+                        let now = w.nexus.store.element_at(DEFAULT_SPACE, eid, *s).await.ok().flatten().map(|x| rowdig(&x));
+                        if purged.contains(id) {
+                            if now.is_some() {
+                                failures.push(json!({"class": "purge-left-past", "what": format!("{id} was purged, yet element_at({id}, {s}) still answers {:?}", now), "history": h, "statements": stmts.clone()}));
+                            }
+                        } else if &now != was {
+                            failures.push(json!({"class": "purge-touched-other", "what": format!("PURGE of {:?} changed element_at({id}, {s}) from {:?} to {:?}", purged, was, now), "history": h, "statements": stmts.clone()}));
+                        }
+                    }
+                    // the purged elements' past is gone by design: what the earlier coordinates answer from now on is the new baseline
+                    for c in coords.iter_mut() {
+                        let clause = format!("AS OF SEQ {}", c.seq);
+                        let mut changed = 0;
+                        for (qi, (_, template)) in bat.iter().enumerate() {
+                            let a = w.ask(&q(template, &clause)).await;
+                            if a != c.answers[qi] {
+                                changed += 1;
+                                c.answers[qi] = a;
+                            }
+                        }
+                        rebaselined += changed;
+                    }
+                }
+                if r.class == "parse_error" {
+                    r.class = "refused".into();
+                }
             }
             if r.class == "committed" || r.class == "no_effect" {
                 commits += 1;
                 let mut answers = vec![];
-                for (_, template) in BATTERY.iter() {
+                for (_, template) in bat.iter() {
                     answers.push(w.ask(&q(template, "")).await);
                 }
-                let schema_env = w.ask("DESCRIBE SCHEMA ENVIRONMENT").await;
+                let schema_env = schema_env(&w, "").await;
                 if samples.len() < 2 && !r.changes.is_empty() {
-                    samples.push(json!({"seq": r.seq, "query": q(BATTERY[1].1, ""), "answer": answers[1]}));
+                    samples.push(json!({"seq": r.seq, "query": q(&bat[1].1, ""), "answer": answers[1]}));
                 }
                 coords.push(Coord {
                     seq: r.seq.unwrap_or(0),
@@ -131,7 +257,7 @@ pub async fn main(args: &[String]) {
                 }
                 for (form, clause, want_seq) in forms {
                     let Some(expected) = coords.iter().find(|x| x.seq == want_seq) else { continue };
-                    for (qi, (family, template)) in BATTERY.iter().enumerate() {
+                    for (qi, (family, template)) in bat.iter().enumerate() {
                         let text = q(template, &clause);
                         let got = w.ask(&text).await;
                         replays += 1;
@@ -143,13 +269,20 @@ pub async fn main(args: &[String]) {
                         }
                         if got != expected.answers[qi] {
                             // a pattern constraining `state` is a family of its own (known_findings.json)
-                            let class = if template.contains("{state: \"") { "asof-state-constraint" } else { "asof-differs" };
+                            let class = if template.contains("{id: ") && template.contains("state: ") {
+                                // the PRESENT-day by-id path skips the pushed-down constraints (known_findings.json)
+                                "live-by-id-ignores-state"
+                            } else if template.contains("{state: \"") {
+                                "asof-state-constraint"
+                            } else {
+                                "asof-differs"
+                            };
                             failures.push(json!({"class": class, "what": format!("{family} query answers differently {clause} than when seq {} was current", want_seq),
                                 "history": h, "after_statement": i, "query": text, "form": form,
                                 "recorded": expected.answers[qi], "replayed": got, "statements": stmts.clone()}));
                         }
                     }
-                    let env = w.ask(&format!("DESCRIBE SCHEMA ENVIRONMENT {clause}")).await;
+                    let env = schema_env(&w, &clause).await;
                     replays += 1;
                     if env != expected.schema_env {
                         failures.push(json!({"class": "asof-schema-differs", "what": format!("schema environment {clause} differs from the one in force at seq {want_seq}"),
@@ -213,9 +346,9 @@ pub async fn main(args: &[String]) {
         *n += 1;
         *n <= 4
     });
-    let summary = json!({"kind": "summary", "histories": histories, "commits": commits, "replays": replays, "by_family": by_family,
+    let summary = json!({"kind": "summary", "histories": histories, "commits": commits, "purges": purges, "schema_activations": activations, "answers_rebaselined_by_purge": rebaselined, "replays": replays, "by_family": by_family,
                          "by_form": by_form, "later_change_ops": later_kinds, "distinct_nontrivial": nontrivial.len(),
-                         "battery": BATTERY.iter().map(|b| b.1).collect::<Vec<_>>(), "samples": samples,
+                         "battery": bat.iter().map(|b| b.1.clone()).collect::<Vec<_>>(), "samples": samples,
                          "oracle_failures": nfail, "failure_classes": failure_classes, "failures": failures});
     writeln!(out, "{summary}").unwrap();
     out.flush().unwrap();
